@@ -44,6 +44,13 @@ def run_one(kind, name, props, tier="quick", runs=None, demo=True):
             r = subprocess.run(f"{VERIF}/check {p} --tier {tier} --repo {wt}{extra}", shell=True, capture_output=True, text=True, env=env)
             lines = [ln for ln in r.stdout.splitlines() if ln.startswith(("VIOLATION", "HARNESS", "KNOWN", "  clause="))]
             out[p] = {"exit": r.returncode, "wall": round(time.time() - t0, 1), "lines": lines[:6]}
+            try:
+                ev = json.load(open(f"/var/tmp/bbv-ev-{kind}-{name}/{p}.json"))
+                out[p]["violating_runs"] = ev["coverage"].get("violating_runs")
+                out[p]["runs"] = ev["coverage"].get("worlds") or ev["coverage"].get("evaluations")
+                out[p]["timeouts"] = ev["coverage"].get("scenarios_timed_out_inconclusive")
+            except Exception:
+                pass
         sh(f"rm -rf /var/tmp/bbv-ev-{kind}-{name}")
     finally:
         sh(f"git -C /repo worktree remove --force {wt}")
@@ -79,7 +86,7 @@ def main():
             else:
                 res["quiet"] = all(res.get(p, {}).get("exit") == 0 for p in PROPS)
                 verdict = "quiet" if res["quiet"] else "FALSE-ALARM"
-            print(f"{kind}/{name}: {verdict} " + " ".join(f"{p}={res[p]['exit']}({res[p]['wall']}s)" for p in PROPS if p in res)
+            print(f"{kind}/{name}: {verdict} " + " ".join(f"{p}={res[p]['exit']}({res[p]['wall']}s,{res[p].get('violating_runs')}/{res[p].get('runs')})" for p in PROPS if p in res)
                   + (f" demo_exit={res.get('demo_exit_with_patch')}" if 'demo_exit_with_patch' in res else "")
                   + (f" ERROR {res['error']}" if 'error' in res else ""), flush=True)
             for p in PROPS:
